@@ -1,9 +1,130 @@
-"""E9 -- self-test driver (positive controls now; mutant sweep added later)."""
+"""E9 -- self-test driver: the checkers against seeded breaking changes (and benign twins).
 
+Every variant is applied to a scratch copy of $VP_REPO/praatio created under $TMPDIR and removed
+before the command returns; /repo itself is never touched.  Results are informational: they are
+reported in the evidence of the thorough tier and never influence a property verdict.
+"""
+
+import json
+import os
+import shutil
+import subprocess
 import sys
+import tempfile
+from concurrent.futures import ThreadPoolExecutor
+
+from . import REPO, VERIF
+
+SEEDED = os.path.join(VERIF, "seeded")
+TWINS = os.path.join(VERIF, "twins")
+
+
+def _variants(kind_dir):
+    out = []
+    if not os.path.isdir(kind_dir):
+        return out
+    for name in sorted(os.listdir(kind_dir)):
+        d = os.path.join(kind_dir, name)
+        meta = os.path.join(d, "meta.json")
+        patch = os.path.join(d, "patch.diff")
+        if os.path.isfile(meta) and os.path.isfile(patch):
+            with open(meta) as fd:
+                m = json.load(fd)
+            out.append((name, m, patch))
+    return out
+
+
+def run_variant(patch, props, tier="quick"):
+    """Apply patch to a scratch copy and run the given property checks; returns {prop: (exit, tail)}."""
+    d = tempfile.mkdtemp(prefix="vpself_")
+    try:
+        dst = os.path.join(d, "repo")
+        os.makedirs(dst)
+        shutil.copytree(os.path.join(REPO, "praatio"), os.path.join(dst, "praatio"), ignore=shutil.ignore_patterns("__pycache__"))
+        if os.path.exists(os.path.join(REPO, "README.md")):
+            shutil.copy(os.path.join(REPO, "README.md"), dst)
+        with open(patch) as fd:
+            r = subprocess.run(["patch", "-p1", "-s", "-d", dst], stdin=fd, capture_output=True, text=True)
+        if r.returncode != 0:
+            return {p: (3, "patch does not apply: " + (r.stdout + r.stderr)[:200]) for p in props}
+        env = dict(os.environ, VP_REPO=dst, VP_NO_EVIDENCE="1", VP_SERIAL="1", VERIF_TIER=tier)
+        out = {}
+        for p in props:
+            r = subprocess.run([os.path.join(VERIF, "vcheck"), p, "--tier", tier], env=env, capture_output=True, text=True, cwd=VERIF)
+            lines = [l for l in r.stdout.splitlines() if l.strip()]
+            first = next((l.strip() for l in lines if l.startswith("  ") and "--" in l), "")
+            out[p] = (r.returncode, first[:300])
+        return out
+    finally:
+        shutil.rmtree(d, ignore_errors=True)
+
+
+def for_property(prop, tier="quick"):
+    """Seeded changes that break `prop` must be reported (exit 1); twins must stay silent (exit 0)."""
+    res = {"breaking": {}, "twins": {}}
+    jobs = []
+    for name, m, patch in _variants(SEEDED):
+        if m.get("property") == prop or prop in m.get("also_breaks", []):
+            jobs.append(("breaking", name, patch))
+    for name, m, patch in _variants(TWINS):
+        if prop in m.get("properties", []) or not m.get("properties"):
+            jobs.append(("twins", name, patch))
+    with ThreadPoolExecutor(max_workers=min(16, max(1, len(jobs)))) as ex:
+        futs = {ex.submit(run_variant, patch, [prop], tier): (kind, name) for kind, name, patch in jobs}
+        for f, (kind, name) in futs.items():
+            code, first = f.result()[prop]
+            want = 1 if kind == "breaking" else 0
+            res[kind][name] = {"exit": code, "as_expected": code == want, "first_report": first}
+    return res
+
+
+def matrix(props=None, tier="quick"):
+    """Every seeded change against every property check (development aid; prints a table)."""
+    from .cli import PROPS
+
+    props = props or PROPS
+    rows = []
+    variants = _variants(SEEDED)
+    with ThreadPoolExecutor(max_workers=8) as ex:
+        futs = [(name, m, ex.submit(run_variant, patch, props, tier)) for name, m, patch in variants]
+        for name, m, f in futs:
+            r = f.result()
+            rows.append((name, m.get("property"), {p: r[p][0] for p in props}))
+    return rows
 
 
 def main(what=None) -> int:
     from . import controls
 
-    return controls.run()
+    if what in (None, "controls"):
+        return controls.run()
+    if what == "matrix":
+        rows = matrix()
+        from .cli import PROPS
+
+        print("%-12s %-4s " % ("variant", "prop") + " ".join(p[1:] for p in PROPS))
+        bad = 0
+        for name, prop, r in rows:
+            print("%-12s %-4s " % (name, prop) + " ".join({0: " .", 1: " X", 2: " ?", 3: " !"}.get(r[p], " ?") for p in PROPS))
+            if r.get(prop) != 1:
+                bad += 1
+        print("%d variants; %d not reported by the check of their own property" % (len(rows), bad))
+        return 0
+    if what == "twins":
+        bad = 0
+        from .cli import PROPS
+
+        for name, m, patch in _variants(TWINS):
+            props = m.get("properties") or PROPS
+            r = run_variant(patch, props)
+            flagged = {p: c for p, (c, _) in r.items() if c != 0}
+            print("%-28s %s" % (name, "silent" if not flagged else "ALARM %s" % flagged))
+            if flagged:
+                bad += 1
+                for p in flagged:
+                    print("      %s: %s" % (p, r[p][1]))
+        print("%d twin(s) raised an alarm" % bad)
+        return 0
+    res = for_property(what.upper())
+    print(json.dumps(res, indent=1))
+    return 0
